@@ -465,8 +465,9 @@ func c10Fill(x *mc.Exec) {
 		names = append(names, s.name)
 	}
 	at := x.All("fill-before", n)
-	segs[at].Fill = []int{1, 2, 3, 70}[x.All("fill-count", 4)]
-	names[at] = fmt.Sprintf("%d fill bytes + %s", segs[at].Fill, names[at])
+	segs[at].Fill = []int{0, 1, 2, 3, 63, 70}[x.All("fill-count", 6)]
+	segs[at].Junk = []int{0, 1, 2, 31, 61, 62, 63, 64, 65, 126, 127, 128, 191}[x.All("stray-bytes", 13)]
+	names[at] = fmt.Sprintf("%d stray bytes + %d fill bytes + %s", segs[at].Junk, segs[at].Fill, names[at])
 	c := [][2]int{{0, 0}, {4, 0}, {3, 4}}[x.All("callbacks", 3)]
 	c10Run(x, segs, names, c[0], c[1], []int{0, 33}[x.All("source-chunk", 2)])
 }
@@ -488,7 +489,7 @@ func init() {
 			edge := mc.Space{Name: "buffer-edge-positions", H: c10Edge(fillers), NoLevels: true, Isolate: true, SplitDepth: 1,
 				Rule: fmt.Sprintf("[APP14 filler of length L][target][Exif][XMP] for %d filler lengths in 0..8300 (quick: every L that puts the target's marker within 80 bytes before or 8 after a multiple of 4096, and every 97th; thorough: all) x 8 targets (XMP, empty XMP, Exif, near-Exif, near-XMP, XMP extension, APP1 0xFF run, COM) x 4 callback pairs x 4 source deliveries (bytes.Reader; plain reader with chunks of 4096, 1000, 33): every look-ahead of the scanner is exercised at every distance from the end of its buffer", len(fillers))}
 			fill := mc.Space{Name: "fill-bytes", H: c10Fill, NoLevels: true, Isolate: true, SplitDepth: 1,
-				Rule: "sequences of 1..3 segments over {Exif, XMP, JFIF, COM, 5000-byte APP14, DRI} with 1, 2, 3 or 70 fill bytes (0xFF) before one of them x 3 callback pairs x 2 source deliveries: fill bytes before a marker are part of the marker syntax (ITU T.81 B.1.1.2) and change nothing"}
+				Rule: "sequences of 1..3 segments over {Exif, XMP, JFIF, COM, 5000-byte APP14, DRI} with 0, 1, 2, 3, 63 or 70 fill bytes (0xFF) and 0..191 stray non-0xFF bytes (13 lengths around the multiples of the scanner's 64-byte look-ahead) before one of them x 3 callback pairs x 2 source deliveries: fill bytes before a marker are part of the marker syntax (ITU T.81 B.1.1.2) and change nothing"}
 			return []mc.Space{edge, fill, {Name: "marker-sequences", H: c10Harness(n), NoLevels: true, Isolate: true, SplitDepth: 2,
 				Rule: fmt.Sprintf("every sequence of <= %d segments over a 21-symbol alphabet (JFIF, JFXX, Exif min/rich both byte orders, Exif whose offsets point behind the block, the Exif prefix followed by 0-7 bytes, XMP with 7 packet lengths incl. 0, 4096+-1, 65502, XMP extension, ICC, Photoshop, 0xFF runs, nested SOI/EOI, near-Exif, near-XMP, COM, DRI with 7 restart intervals incl. marker-looking ones, SOF2, COM/APP0/APP12/APP1 segments of 0-3 bytes of 0xFF, 5000-byte APPn, ignored segments (APP2, COM, non-Exif APP1, APP13) of length 0xFFFF, 0xFFFE, 0xFFFD, 0x8000, 0x7FFF, 0x100, 0xFF filled with marker-looking structure) followed by DQT SOF0 DHT SOS entropy EOI x 6 Exif-callback behaviours x 7 XMP-callback behaviours; trivial = no metadata segment", n)}}
 		},
